@@ -381,6 +381,14 @@ fn main() {
             s.maxdepth = ju(case, "maxdepth", 3);
             run_script(case, s)
         }
+        "lowrank_mclmc" => {
+            let mut s = nuts_rs::LowRankMclmcSettings::default();
+            s.num_tune = ju(case, "num_tune", 5);
+            s.num_draws = ju(case, "num_draws", 5);
+            s.num_chains = ju(case, "num_chains", 2) as usize;
+            s.seed = ju(case, "seed", 1);
+            run_script(case, s)
+        }
         "diag_mclmc" => {
             let mut s = DiagMclmcSettings::default();
             s.num_tune = ju(case, "num_tune", 5);
